@@ -135,6 +135,7 @@ type Exec struct {
 	havocId       int
 	anchorHits    map[string]int
 	loopTextHits  map[string]int
+	rawOuts       []*State
 	guardCount    int
 	touched       []touchedPtr
 	pendingHavoc  []string
@@ -558,13 +559,42 @@ func (x *Exec) mergeAll(sts []*State) *State {
 // ---------- statements
 
 func (x *Exec) execBlock(st *State, list []ast.Stmt) *State {
-	for _, s := range list {
+	for i, s := range list {
 		if st == nil {
 			return nil
 		}
+		x.rawOuts = nil
 		st = x.execStmt(st, s)
+		if x.rawOuts != nil && x.noMergeFor(s) {
+			// path splitting: run the rest of the block once per branch outcome
+			outs := x.rawOuts
+			x.rawOuts = nil
+			var ends []*State
+			for _, o := range outs {
+				if o == nil || x.infeasible(o) {
+					continue
+				}
+				ends = append(ends, x.execBlock(o, list[i+1:]))
+			}
+			return x.mergeAll(ends)
+		}
 	}
+	x.rawOuts = nil
 	return st
+}
+
+// noMergeFor: the contract asked for path splitting ("nomerge") and s is a
+// branching statement at the top level of the function body.
+func (x *Exec) noMergeFor(s ast.Stmt) bool {
+	c := x.eng.cf.Contracts[x.frame().qual]
+	if c == nil || !c.NoMerge || x.inlineDepth > 0 || len(x.frame().ctl) > 0 {
+		return false
+	}
+	switch s.(type) {
+	case *ast.SwitchStmt, *ast.TypeSwitchStmt, *ast.IfStmt:
+		return true
+	}
+	return false
 }
 
 func (x *Exec) execStmt(st *State, s ast.Stmt) *State {
@@ -997,6 +1027,7 @@ func (x *Exec) execIf(st *State, s *ast.IfStmt) *State {
 	} else {
 		e = st2
 	}
+	x.rawOuts = []*State{a, e}
 	return x.mergeAll([]*State{a, e})
 }
 
@@ -1093,6 +1124,7 @@ func (x *Exec) execSwitch(st *State, s *ast.SwitchStmt) *State {
 	}
 	fr.ctl = fr.ctl[:len(fr.ctl)-1]
 	outs = append(outs, cf.breaks...)
+	x.rawOuts = outs
 	return x.mergeAll(outs)
 }
 
@@ -1171,6 +1203,7 @@ func (x *Exec) execTypeSwitch(st *State, s *ast.TypeSwitchStmt) *State {
 	}
 	fr.ctl = fr.ctl[:len(fr.ctl)-1]
 	outs = append(outs, cf.breaks...)
+	x.rawOuts = outs
 	return x.mergeAll(outs)
 }
 
